@@ -296,6 +296,9 @@ func runProofs(b *harness.B, era string, part int) {
 		// tip is now H+1; proofs are offered in candidate blocks at height H+2
 		cs := c.Tip()
 		var honestV1 []types.Transaction
+		var emptyV1 []types.StorageProof
+		var corruptV1 *types.StorageProof
+		var corruptName string
 		var honestV2 []types.V2Transaction
 		for gi, j := range grp {
 			id := ids[gi]
@@ -329,6 +332,9 @@ func runProofs(b *harness.B, era string, part int) {
 				blk, bs, err := mk(proofCase{name: "empty-file-empty-proof"}, id)
 				if err == nil {
 					verdict := consensus.ValidateBlock(cs, blk, bs) == nil
+					if verdict && !v2 {
+						emptyV1 = append(emptyV1, blk.Transactions[0].StorageProofs[0])
+					}
 					b.Count(fmt.Sprintf("observed:empty-file-proof-accepted=%v/era-%s", verdict, era), 1)
 					b.Eval(1)
 					b.Distinct(era, "empty-file")
@@ -398,6 +404,10 @@ func runProofs(b *harness.B, era string, part int) {
 					b.Violate(fmt.Sprintf("C07/storage-proof/corrupted-proof-accepted/%s/era-%s", pc.name, era), fmt.Sprintf("proof corrupted by %q accepted (size %d, %d leaves, challenged leaf %d)", pc.name, j.size, nLeaves, idx), map[string]any{"size": j.size, "index": idx, "era": era, "case": pc.name})
 				case pc.accept == "must-reject":
 					b.Count("corrupted_proofs_rejected", 1)
+					if !v2 && corruptV1 == nil {
+						sp := blk.Transactions[0].StorageProofs[0]
+						corruptV1, corruptName = &sp, pc.name
+					}
 				default:
 					b.Count(fmt.Sprintf("observed:%s-accepted=%v", pc.name, verr == nil), 1)
 				}
@@ -439,6 +449,47 @@ func runProofs(b *harness.B, era string, part int) {
 					b.Distinct(era, "shared-transaction", rev, len(one.StorageProofs))
 					if verr != nil {
 						b.Violate("C07/storage-proof/honest-proof-rejected/proofs-sharing-one-transaction/era-"+era, fmt.Sprintf("%d honest proofs, each accepted in a transaction of its own, are rejected when they share one transaction (reversed=%v): %s", len(one.StorageProofs), rev, chaingen.NormErr(verr)), map[string]any{"era": era, "reversed": rev})
+					}
+				}
+			}
+		}
+		// a corrupted v1 proof (rejected on its own) sharing one transaction with proofs that are accepted on their own -
+		// honest proofs of other contracts, the proof of an empty contract - before and after them: still rejected
+		if corruptV1 != nil {
+			for _, comp := range []struct {
+				name   string
+				proofs []types.StorageProof
+			}{{"honest-proofs-of-other-contracts", func() (ps []types.StorageProof) {
+				for _, t := range honestV1 {
+					if t.StorageProofs[0].ParentID != corruptV1.ParentID {
+						ps = append(ps, t.StorageProofs[0])
+					}
+				}
+				return
+			}()}, {"the-proof-of-an-empty-contract", emptyV1}} {
+				if len(comp.proofs) == 0 {
+					continue
+				}
+				for _, after := range []bool{true, false} {
+					one := types.Transaction{StorageProofs: append([]types.StorageProof(nil), comp.proofs...)}
+					pos := "after"
+					if after {
+						one.StorageProofs = append(one.StorageProofs, *corruptV1)
+					} else {
+						one.StorageProofs, pos = append([]types.StorageProof{*corruptV1}, one.StorageProofs...), "before"
+					}
+					blk, bs, err := c.BlockWith([]types.Transaction{one}, nil)
+					if err != nil {
+						continue
+					}
+					b.Eval(1)
+					b.Count("corrupted_v1_proofs_sharing_a_transaction_with_accepted_ones", 1)
+					b.Count("corrupted_v1_proofs_sharing_a_transaction_with_"+comp.name, 1)
+					b.Distinct(era, "corrupt-in-shared-transaction", comp.name, pos)
+					if consensus.ValidateBlock(cs, blk, bs) == nil {
+						b.Violate("C07/storage-proof/corrupted-proof-accepted/"+corruptName+"/sharing-a-transaction-"+pos+"-"+comp.name+"/era-"+era, fmt.Sprintf("a proof corrupted by %q, rejected in a transaction of its own, is accepted when it stands %s %s in one transaction", corruptName, pos, comp.name), map[string]any{"era": era})
+					} else {
+						b.Count("corrupted_proofs_rejected", 1)
 					}
 				}
 			}
@@ -705,6 +756,42 @@ func revisionLawVariants(b *harness.B, c *chaingen.Chain, cs consensus.State, or
 			rev.MissedHostValue = nv
 			return true
 		})
+		// a second revision later in the same block stands on the first one, not on the parent the transaction
+		// carries: the first lowers the host's missed value (by one hasting if it did not already), the second
+		// restores the parent's value
+		func() {
+			blk := chaingen.CloneBlock(orig)
+			tt := &blk.V2.Transactions[i]
+			blk.V2.Transactions = blk.V2.Transactions[:i+1]
+			rev1 := &tt.FileContractRevisions[0].Revision
+			if cur.MissedHostValue.IsZero() || rev1.RevisionNumber >= types.MaxRevisionNumber-2 || cur.MissedHostValue.Cmp(rev1.HostOutput.Value) > 0 {
+				return
+			}
+			if rev1.MissedHostValue.Cmp(cur.MissedHostValue) >= 0 {
+				rev1.MissedHostValue = cur.MissedHostValue.Sub(one)
+			}
+			c.SignV2(cs, tt, nil)
+			rev2 := *rev1
+			rev2.RevisionNumber++
+			rev2.MissedHostValue = cur.MissedHostValue
+			txn2 := types.V2Transaction{FileContractRevisions: []types.V2FileContractRevision{{Parent: r.Parent.Copy(), Revision: rev2}}}
+			c.SignV2(cs, &txn2, map[types.FileContractID]types.V2FileContract{r.Parent.ID: *rev1})
+			blk.V2.Transactions = append(blk.V2.Transactions, txn2)
+			try("v2-second-revision-in-the-block-restores-the-missed-host-value-the-first-lowered", blk, true)
+			b.Count("second_in_block_revision_variants", 1)
+			// control: the same second revision keeping the lowered value
+			ctl := chaingen.CloneBlock(blk)
+			t2 := &ctl.V2.Transactions[len(ctl.V2.Transactions)-1]
+			t2.FileContractRevisions[0].Revision.MissedHostValue = rev1.MissedHostValue
+			c.SignV2(cs, t2, map[types.FileContractID]types.V2FileContract{r.Parent.ID: *rev1})
+			if err, _ := c.TryVariant(&ctl); !chaingen.IsSealFailure(err) {
+				if err == nil {
+					b.Count("second_in_block_revision_controls_accepted", 1)
+				} else {
+					b.SetAdd("second_in_block_revision_controls_rejected", chaingen.NormErr(err))
+				}
+			}
+		}()
 		mut("v2-changes-total-collateral", true, func(rev *types.V2FileContract) bool {
 			rev.TotalCollateral = rev.TotalCollateral.Add(one)
 			return true
@@ -820,6 +907,6 @@ func main() {
 		},
 		MinEvals:    3000,
 		MinDistinct: 150,
-		Require:     []string{"zero_root_contract_proofs_offered", "honest_proofs_accepted", "corrupted_proofs_rejected", "second_prover_proofs_compared", "proofs_offered_at_era_boundary_heights", "blocks_applied", "blocks_reverted", "v1_resolved_valid", "v1_resolved_missed", "v2_resolved_proof", "v2_resolved_expiration", "v2_resolved_renewal", "v1_revisions_checked", "v2_revisions_checked", "contract_payout_outputs_checked", "illegal_revisions_rejected"},
+		Require:     []string{"zero_root_contract_proofs_offered", "honest_proofs_accepted", "corrupted_proofs_rejected", "second_prover_proofs_compared", "proofs_offered_at_era_boundary_heights", "blocks_applied", "blocks_reverted", "v1_resolved_valid", "v1_resolved_missed", "v2_resolved_proof", "v2_resolved_expiration", "v2_resolved_renewal", "v1_revisions_checked", "v2_revisions_checked", "contract_payout_outputs_checked", "illegal_revisions_rejected", "second_in_block_revision_variants", "corrupted_v1_proofs_sharing_a_transaction_with_accepted_ones", "corrupted_v1_proofs_sharing_a_transaction_with_the-proof-of-an-empty-contract"},
 	})
 }
